@@ -79,6 +79,9 @@ pub fn gen_stream(rng: &mut Rng, lex: &Lexicon, o: &StreamOpts) -> Vec<IdTok> {
                 if rng.below(1000) < o.nan_permille {
                     out[l].nan = true;
                 }
+            } else if rng.below(1000) < o.nan_permille {
+                // "not a number part" on a punctuation token: it must keep behaving as that punctuation
+                out[l].nan = true;
             }
         }
     }
